@@ -32,6 +32,9 @@ BASES = {
     "Enum": {"kind": "enum"}, "Ref": {"kind": "ref"},
     "Dict": {"kind": "dict"}, "List": {"kind": "seq"}, "Array": {"kind": "seq"},
     "DateYYYYMMDD": {"kind": "compound"},
+    "Long": {"kind": "scalar"}, "Float": {"kind": "scalar"}, "Decimal": {"kind": "scalar"},
+    "DateTime": {"kind": "scalar"}, "Date": {"kind": "scalar"}, "Time": {"kind": "scalar"},
+    "Constrained": {"kind": "scalar"}, "MultiValue": {"kind": "seq"},
 }
 # attributes every class of a kind shows (read from /repo/src; a changed default is a disagreement)
 COMMON = ["name", "optional", "default", "validators"]
@@ -70,6 +73,10 @@ class Real:
         self.classes = [getattr(flatland, case["base"]).using()]
         self.kinds = [self.kind]
         self.parents = [None]
+        self.ext = []          # compound classes made outside the store (members of containers), watched
+
+    def ext_snapshot(self, j):
+        return {"field_schema": [self.field_desc(f) for f in self.ext[j].field_schema]}
 
     # -- canonical values
     def label(self, cls):
@@ -187,6 +194,12 @@ class Real:
             self.add(cls.with_properties(*pairs), c)
         elif t == "of":
             self.add(cls.of(*[self.classes[j] for j in step["members"]]), c)
+        elif t == "of_date":
+            # a container holding a lazily prepared compound type that nobody has instantiated yet
+            import flatland
+            m = flatland.DateYYYYMMDD.named("d").using(optional=bool(step.get("opt")))
+            self.ext.append(m)
+            self.add(cls.of(m), c)
         elif t == "valued":
             self.add(cls.valued(*step["values"]), c)
         elif t == "to":
@@ -225,6 +238,8 @@ def value_for(cls, fields=None):
         return {f.name: value_for(f) for f in fields}
     if issubclass(cls, (flatland.List, flatland.Array)):
         return []
+    if issubclass(cls, flatland.DateYYYYMMDD):
+        return None
     if issubclass(cls, flatland.Integer):
         return 1
     return "1"
@@ -318,6 +333,11 @@ def _behaviour(cls):
             full = cls(value_for(cls))
             with_value = {"mapping": mapping, "value": repr(full.value),
                           "flat": [[k, v] for k, v in full.flatten()]}
+        elif issubclass(cls, flatland.DateYYYYMMDD):
+            import datetime
+            full = cls()
+            full.set(datetime.date(2001, 2, 3))
+            with_value = {"u": full.u, "kids": [[k.name, k.u, bool(k.optional)] for k in full.children]}
         else:
             with_value = None
         el = cls()
@@ -330,6 +350,52 @@ def _behaviour(cls):
         return type(e).__name__
 
 
+def _is_prepared(cls):
+    return bool(cls.__dict__.get("_compound_prepared"))
+
+
+def _generated(optional):
+    return [{"gen": True, "name": nm, "optional": bool(optional), "format": fmt}
+            for nm, fmt in (("year", "%04i"), ("month", "%02i"), ("day", "%02i"))]
+
+
+def classify_lazy(case, failure):
+    """KF-C06-a class predicate, recomputed from the case: the step is an instantiation; it flipped
+    `_compound_prepared` of a compound class P that was unprepared; the disputed class reads its
+    field_schema from P (P itself, a descendant inheriting it, or P as a watched member of a container);
+    nothing but field_schema differs; and the new field_schema is exactly what lazy preparation builds:
+    the members that were not generated, then year/month/day generated with P.optional for the open positions."""
+    if failure.get("clause") != "frame-lazy-preparation" or failure.get("attrs") != ["field_schema"]:
+        return None
+    step_no = failure.get("step")
+    if step_no is None or not (0 <= step_no < len(case["steps"])) or case["steps"][step_no]["t"] != "inst":
+        return None
+    real = Real(case)
+    for st in case["steps"][:step_no]:
+        real.do(st)
+    label = failure.get("class")
+    try:
+        cls = real.ext[int(label[3:])] if isinstance(label, str) else real.classes[label]
+    except (IndexError, ValueError, TypeError):
+        return None
+    before = [real.field_desc(f) for f in cls.field_schema]
+    watched = list(real.classes) + list(real.ext)
+    flags = [_is_prepared(w) for w in watched]
+    real.do(case["steps"][step_no])
+    newly = [w for w, pb in zip(watched, flags) if not pb and _is_prepared(w)]
+    owners = [p for p in newly if cls.field_schema is p.field_schema]
+    if not owners:
+        return None
+    user = [d for d in before if not (isinstance(d, dict) and d.get("gen"))]
+    want = user if len(user) == 3 else user + _generated(owners[0].optional)[len(user):]
+    now = [real.field_desc(f) for f in cls.field_schema]
+    observed = failure.get("observed", {})
+    observed = observed.get("field_schema") if isinstance(observed, dict) else None
+    if now == want and observed == want:
+        return "KF-C06-a"
+    return None
+
+
 def oracle_chain(case):
     fails = []
     real = Real(case)
@@ -340,36 +406,43 @@ def oracle_chain(case):
             continue
         before = real.snapshot_all()
         raw_before = real.raw_identities()
-        lazy = (step["t"] == "inst" and real.kinds[step["c"]] == "compound"
-                and not real.classes[step["c"]].__dict__.get("_compound_prepared"))
+        ext_before = [real.ext_snapshot(j) for j in range(len(real.ext))]
+        watched = list(real.classes) + list(real.ext)
+        prepared_before = [_is_prepared(w) for w in watched]
         r, inst = real.do(step)
         after = real.snapshot_all()
         raw_after = real.raw_identities()
-        exempt = set()
-        if lazy:
-            # lazy preparation: the instantiated compound class (and classes inheriting its field_schema)
-            # get their generated members on first instantiation
-            root = real.classes[step["c"]]
-            exempt = {i for i in range(n) if issubclass(real.classes[i], root)}
+        # classes lazily prepared by this step (only a class whose flag flipped can account for a new field_schema)
+        newly = [w for w, pb in zip(watched, prepared_before) if not pb and _is_prepared(w)]
+
+        def by_lazy_preparation(cls):
+            return any(cls.field_schema is p.field_schema for p in newly)
+
         for i in range(n):
             b, a = dict(before[i]), dict(after[i])
-            if i in exempt:
-                for s in (b, a):
-                    s.pop("field_schema", None)
-                    s["ids"] = {k: v for k, v in s["ids"].items() if k != "field_schema"}
             # identity labels are numbered per snapshot; compare raw identities instead
             b.pop("ids"), a.pop("ids")
+            lazy_here = False
             if a != b:
                 bad = sorted(k for k in a if a[k] != b.get(k))
-                fails.append({"clause": "frame", "step": n_step, "class": i, "attrs": bad,
-                              "expected": {k: b[k] for k in bad}, "observed": {k: a[k] for k in bad}})
+                lazy_here = bad == ["field_schema"] and by_lazy_preparation(real.classes[i])
+                fails.append({"clause": "frame-lazy-preparation" if lazy_here else "frame", "step": n_step, "class": i,
+                              "attrs": bad, "expected": {k: b[k] for k in bad}, "observed": {k: a[k] for k in bad}})
             for (ci, attr), (ident, content) in raw_before.items():
-                if ci != i or (i in exempt and attr == "field_schema"):
+                if ci != i or (lazy_here and attr == "field_schema"):
                     continue
                 ident2, content2 = raw_after[(ci, attr)]
                 if type(content) is list and (ident2 != ident):
-                    fails.append({"clause": "frame-identity", "step": n_step, "class": i, "attrs": [attr],
-                                  "expected": "same object", "observed": "attribute rebound"})
+                    lazy_id = attr == "field_schema" and by_lazy_preparation(real.classes[i])
+                    fails.append({"clause": "frame-lazy-preparation" if lazy_id else "frame-identity", "step": n_step,
+                                  "class": i, "attrs": [attr], "expected": {attr: before[i].get(attr)},
+                                  "observed": {attr: after[i].get(attr)}})
+        for j, eb in enumerate(ext_before):
+            ea = real.ext_snapshot(j)
+            if ea != eb:
+                lazy_here = by_lazy_preparation(real.ext[j])
+                fails.append({"clause": "frame-lazy-preparation" if lazy_here else "frame", "step": n_step,
+                              "class": "ext%d" % j, "attrs": ["field_schema"], "expected": eb, "observed": ea})
         if r == "ok" and step["t"] in ("using", "inst"):
             # the list the caller passed as validators=… (and mutated afterwards) must have been copied
             holder = inst if (step["t"] == "inst" and real.kinds[step["c"]] != "compound") else real.classes[-1]
@@ -414,7 +487,8 @@ def oracle_chain(case):
             if extra:
                 fails.append({"clause": "instance-local", "step": n_step, "class": step["c"], "attrs": sorted(extra),
                               "expected": {}, "observed": extra})
-        if fails:
+        # a recorded finding (lazy preparation) does not end the check of the history; anything else does
+        if any(f["clause"] != "frame-lazy-preparation" or classify_lazy(case, f) is None for f in fails):
             return fails
     # history independence: the same chain (i) without any instantiation and (ii) without the plain
     # instantiations only gives classes — including the classes a compound derives on the fly for an
@@ -460,7 +534,10 @@ def _final_behaviour(case, keep):
         if r == "ok" and len(real.classes) == n + 1:
             made[n_step] = n
     out = {}
-    for n_step, cid in sorted(made.items()):
+    # descendants are probed before their ancestors: probing instantiates, and a derived class must behave
+    # the same whether or not its parent was prepared before (in the run without instantiations the parent
+    # is then still unprepared when the child is probed)
+    for n_step, cid in sorted(made.items(), key=lambda kv: -kv[1]):
         snap = real.snapshot(cid, {})
         snap.pop("ids"), snap.pop("parent")
         for a in ("field_schema", "member_schema"):
@@ -589,6 +666,30 @@ def gen_dict_chain(rng):
             steps.append({"t": "with_properties", "c": c, "pairs": [[rng.choice(KEYS), rng.randint(0, 5)]]})
             n += 1
     return {"kind": "chain", "base": "Dict", "steps": steps}
+
+
+def gen_container_chain(rng):
+    """a Dict / List / Array holding a DateYYYYMMDD member nobody has instantiated yet; the container is
+    derived further and instantiated (plain, overriding, with a value) at various points"""
+    base = rng.choice(["Dict", "Dict", "List", "Array"])
+    steps = [{"t": "of_date", "c": 0, "opt": rng.random() < 0.4}]
+    n = 2
+    for _ in range(rng.randint(1, 7)):
+        c = rng.randrange(n)
+        r = rng.random()
+        if r < 0.4:
+            kw = [["optional", rng.random() < 0.5]] if rng.random() < 0.4 else []
+            steps.append({"t": "inst", "c": c, "kw": kw, "val": rng.random() < 0.3})
+        elif r < 0.6:
+            steps.append({"t": "named", "c": c, "name": rng.choice(NAMES)})
+            n += 1
+        elif r < 0.8:
+            steps.append({"t": "using", "c": c, "kw": [["optional", rng.random() < 0.5]]})
+            n += 1
+        else:
+            steps.append({"t": "of_date", "c": c, "opt": rng.random() < 0.4})
+            n += 1
+    return {"kind": "chain", "base": base, "steps": steps}
 
 
 def gen_compound_chain(rng):
@@ -765,17 +866,20 @@ class C06(Property):
         "schema_fields", "addUnseen_spec", "addAndOverwrite_spec",
         "WF_of_wfB", "C06_full_fails",
         "userFields_preparedFields", "compound_fields_history_independent", "compoundInit_stores",
-        "compoundInit_preparedFrom", "lookup_ne_preparedFrom",
+        "compoundInit_preparedFrom", "lookup_ne_preparedFrom", "frame_lazy", "step_lazy_state",
     )]
-    level_text = "proof"
-    level_note = ("frame (every non-lazy-preparation step leaves every observable attribute and property of every "
-                  "pre-existing class unchanged), instance_local and schema_fields (Nodup + overlay characterisation) are "
-                  "proved for all stores/inputs of the model; the unrestricted frame statement C06_Full is false because of "
-                  "the lazy preparation of compound types (negation witness); well-formedness of reachable stores, the frame "
-                  "condition for lazy preparation (all attributes but field_schema) and history independence are checked by "
-                  "the runner/oracle on every generated chain, not proved; the regeneration rule of DateYYYYMMDD (member list after "
-                  "preparation = user-supplied members + year/month/day generated from the class's own optional, whether or "
-                  "not an ancestor was prepared before) is proved as compound_fields_history_independent")
+    level_text = "proof (partial: one-step frame with hypothesis lazyPrep = none; KF-C06-a open)"
+    level_note = ("PROVED for every well-formed store of the model: frame / frame_partial / frame_observe (ONE step, hypothesis "
+                  "lazyPrep σ s = none: no attribute, list content or property of a pre-existing class changes), frame_lazy "
+                  "(a lazily preparing instantiation of p changes only field_schema and only of classes with p in their MRO), "
+                  "instance_local (a non-compound instantiation leaves the model store unchanged — model stores hold classes of "
+                  "one element kind only, so containers with compound members are outside it), schema_fields (Nodup + overlay), "
+                  "compound_fields_history_independent (regeneration rule).  REFUTED: C06_Full (C06_full_fails) = open finding "
+                  "KF-C06-a (lazy preparation rebinds field_schema of the prepared class and its inheriting descendants).  NOT "
+                  "PROVED: well-formedness along histories (no WF_step: the frame theorems are one-step; WF is re-checked "
+                  "decidably after every step by the runner), 'the returned class is a new direct subclass' (oracle clause "
+                  "new-subclass only), general history independence beyond the compound regeneration rule (oracle clause "
+                  "history-independent only), containers holding compounds (oracle only, has_model = False)")
     technique = "Lean 4 model (class store + heap of list objects) + frame theorem by store extension; differential testing"
     trusted_base = [
         "Python's class machinery (type(), attribute lookup along a single-inheritance MRO, instance __dict__) is the "
@@ -783,6 +887,11 @@ class C06(Property):
         "validators are opaque labelled callables",
     ]
     assumptions = [
+        "every class of a model store has the element kind of class 0: containers whose members are lazily prepared compounds "
+        "are generated (of_date) but checked by the oracle only",
+        "16 of the 23 exported element types start chains (not SparseDict, JoinedString, Compound, Schema/Form/SparseSchema "
+        "as chain roots; declarative Schema field collection is covered as its own case kind, constructor chains on "
+        "declarative schemas are not)",
         "constructor chains use single inheritance (class_cloner always derives one direct subclass); multiple "
         "inheritance is covered for declarative Schema field collection only",
         "members generated by DateYYYYMMDD.__compound_init__ are observed as (name, format, optional, generated) records",
@@ -839,6 +948,9 @@ class C06(Property):
             {"t": "inst", "c": 4, "kw": [["field_schema", [["z", False]]], ["name", "odd"]], "val": True},
             {"t": "inst", "c": 4, "kw": [], "val": True},
             {"t": "named", "c": 4, "name": "later"}]})
+        # KF-C06-a through a container: Dict.of(M)() prepares the member class M
+        out.append({"kind": "chain", "base": "Dict", "steps": [
+            {"t": "of_date", "c": 0, "opt": False}, {"t": "inst", "c": 1, "kw": [], "val": False}]})
         # planned drill: including_validators without the list copy
         out.append({"kind": "chain", "base": "String", "steps": [
             {"t": "validated_by", "c": 0, "vs": [1, 2]},
@@ -869,6 +981,8 @@ class C06(Property):
                 yield gen_compound_chain(rng)
             elif r < 0.50:
                 yield gen_dict_chain(rng)
+            elif r < 0.55:
+                yield gen_container_chain(rng)
             else:
                 yield gen_chain(rng)
 
@@ -876,6 +990,15 @@ class C06(Property):
         if case["kind"] == "schema":
             return run_schema(case)
         return run_chain(case)
+
+    def classify(self, case, failure):
+        if case.get("kind") != "chain":
+            return None
+        return classify_lazy(case, failure)
+
+    def has_model(self, case):
+        # containers holding a compound member mix element kinds in one store: outside the model (oracle only)
+        return not (case.get("kind") == "chain" and any(s["t"] == "of_date" for s in case["steps"]))
 
     def oracle(self, case):
         if case["kind"] == "schema":
